@@ -61,7 +61,7 @@ func parseCtors(pkg *packages.Package, theTyp types.Type, typName string) []*Fie
 
 			nameMap := extractParamToFieldMap(fn)
 			for _, p := range params.List {
-				pname := p.Names[0].Name //params: camelCase
+				pname := firstName(p) //params: camelCase; an unnamed param is bound to no field
 
 				n := nameMap[pname]
 				name := n.name
